@@ -254,6 +254,25 @@ Theorem C18_closure_not_native_by_inheritance : forall fl ws ws' id ad c,
 Proof. exact closure_not_native_by_inheritance. Qed.
 Print Assumptions C18_closure_not_native_by_inheritance.
 
+(* callable CLASSES: register_native on a class marks the class; instances of it, instances of its
+   subclasses and the subclasses themselves are native (getattr finds the class attribute), also
+   through partials / bound methods; registering one instance marks nothing else *)
+Theorem C18_class_registration_inherited : forall fl ws ws' cls own bases,
+  In (underlying cls) bases ->
+  is_native (register_native fl (wrap ws cls)) (wrap ws' (CInst own bases)) = true /\
+  adapt_func (register_native fl (wrap ws cls)) (wrap ws' (CInst own bases)) = Same (wrap ws' (CInst own bases)).
+Proof.
+  intros fl ws ws' cls own bases H. split; [apply class_registration_inherited; exact H|].
+  apply native_as_is, class_registration_inherited. exact H.
+Qed.
+Print Assumptions C18_class_registration_inherited.
+
+Theorem C18_instance_registration_local : forall fl own bases own' bases',
+  own' <> own -> ~ In own bases' ->
+  is_native (register_native fl (CInst own bases)) (CInst own' bases') = is_native fl (CInst own' bases').
+Proof. exact instance_registration_local. Qed.
+Print Assumptions C18_instance_registration_local.
+
 (* calling the outcome of adapt_func: the native function itself / the converting wrapper *)
 Theorem C18_native_called_directly : forall (G M : Type) (cvA : G -> G) (cvR : G -> option M -> G) k den fl c,
   (is_native fl c = true -> call_adapted cvA cvR k den (adapt_func fl c) = den c) /\
@@ -264,9 +283,9 @@ Qed.
 Print Assumptions C18_native_called_directly.
 
 (* after any history of register / unregister calls a callable is native iff the last call that
-   concerned its underlying function was a registration *)
-Theorem C18_registry_history : forall ops c,
-  is_native (run_ops ops) c = match last_op_on (underlying c) ops None with Some true => true | _ => false end.
+   concerned its underlying function - or a class that this callable object is an instance / subclass
+   of - was a registration *)
+Theorem C18_registry_history : forall ops c, is_native (run_ops ops) c = registered ops c.
 Proof. exact registry_history. Qed.
 Print Assumptions C18_registry_history.
 
@@ -388,4 +407,16 @@ Example restored_native_function_is_a_domain_function :
   sees (session_result (is_native fl g) true 11 g) KOpt = KOpt /\ sees g KDom = KOpt /\
   holds_session [RegOp (CFun 3)] true g false false false = true /\
   holds_session [RegOp (CFun 3)] true g true true true = false.
+Proof. vm_compute. repeat split. Qed.
+
+(* a class (object 20) registered with the decorator; 21 = a subclass, 30 / 31 = instances, 40 = the
+   function Cls.__call__ : instances are native, their bound __call__ is not (the mark is on the class,
+   not on the function); an instance registered on its own does not mark its class *)
+Example registered_class_and_instances :
+  let fl := register_native (fun _ => false) (CInst 20 []) in
+  is_native fl (CInst 30 [20]) = true /\ is_native fl (CInst 31 [21; 20]) = true /\
+  is_native fl (CInst 21 [20]) = true /\ is_native fl (CPartial (CInst 30 [20])) = true /\
+  is_native fl (CMethod (CFun 40)) = false /\
+  let fl2 := register_native (fun _ => false) (CInst 30 [20]) in
+  is_native fl2 (CInst 30 [20]) = true /\ is_native fl2 (CInst 32 [20]) = false /\ is_native fl2 (CInst 20 []) = false.
 Proof. vm_compute. repeat split. Qed.
